@@ -45,10 +45,11 @@ type GridStats struct {
 	Elapsed     time.Duration
 	Exhaustive  bool
 	Parts       map[string]any
+	ViolHist    map[string]int
 }
 
 func newGridStats() *GridStats {
-	return &GridStats{Distinct: map[string]struct{}{}, Outcomes: map[string]int{}, ViolCases: map[*Violation]GridCase{}, Known: map[string]int{}, KnownEx: map[string]*Violation{}, Parts: map[string]any{}, Exhaustive: true}
+	return &GridStats{Distinct: map[string]struct{}{}, Outcomes: map[string]int{}, ViolCases: map[*Violation]GridCase{}, Known: map[string]int{}, KnownEx: map[string]*Violation{}, Parts: map[string]any{}, Exhaustive: true, ViolHist: map[string]int{}}
 }
 
 type emptyModel struct{}
@@ -137,7 +138,9 @@ func RunGrid(mk func() GridDriver, prop, tier string, seed int64, confCap int, k
 				}
 				continue
 			}
-			if len(gs.Violations) < 20 {
+			hk := v.Class + " " + fmt.Sprint(v.Where)
+			gs.ViolHist[hk]++
+			if gs.ViolHist[hk] <= 2 && len(gs.Violations) < 40 {
 				gs.Violations = append(gs.Violations, v)
 				gs.ViolCases[v] = cases[j]
 				confIdx = append(confIdx, j)
@@ -277,6 +280,7 @@ func FinishGrid(prop, driver, tier string, seed int64, gs *GridStats, st *Stats,
 	if nviol == 0 {
 		return 0
 	}
+	fmt.Printf("  violation histogram: %v\n", gs.ViolHist)
 	seen := map[string]bool{}
 	for _, v := range gs.Violations {
 		key := v.Class + fmt.Sprint(v.Where)
